@@ -90,8 +90,9 @@ CLAIMS.update({
               technique='frame/effect contracts computed from the AST of the real source (static, all paths), native history replay'),
     'C10': _p("ue/se: encoder (loop invariant tmp*2^(lz+1) <= i+1 < (tmp+1)*2^(lz+1)) and decoder (invariant: bits [oldpos,pos) are "
               "zero) are proved against the H.264 codeword definition for every integer and every bit content, incl. ReadError on "
-              "truncation and exact position advance through read(); uie/sie (string-built encoder) and stream concatenation are "
-              "bounded stand-ins on the real functions.", category='other'),
+              "truncation and exact position advance through read(); the uie/sie *encoders* (string-built) and stream concatenation are "
+              "bounded stand-ins; the interleaved *decoders* (_readuie with a loop invariant over the pair structure, _readsie) are proved as well, "
+              "relative to the recursive definition of the big-endian prefix value; all decoders also under options.bytealigned.", category='other'),
     'C12': _p("For every operation with positions, the real lsb0 code path (dispatch interpreted from Options.set_lsb0) is proved "
               "equal to rev . msb0-SPEC . rev on all operands for every step sign, index and range (slicing, item deletion, "
               "insert/overwrite/append/prepend/reverse/set/invert, startswith/endswith); offset_slice_indices_lsb0 satisfies the "
@@ -106,9 +107,10 @@ CLAIMS.update({
     'C02': _p("For symbolic value and length every integer row (uint/int, be/le/ne) is proved on both sides: the setters, "
               "Dtype.build, the keyword route Cls(row=v, length=n) and property assignment all reach the canonical n-bit "
               "encoding (two's complement MSB first; little-endian = byte-reversed) or raise CreationError, and the getters / read "
-              "return uval/sval of the (byte-reversed) bits; hex/oct/bin/bytes/bool/bits getters and reads are proved against "
+              "return uval/sval of the (byte-reversed) bits (in both bit numberings); hex/oct/bin/bytes/bool/bits getters and reads are proved against "
               "their digit/identity definition. Round trips follow from the assumed int2ba/ba2int contract. Float rows, token "
-              "strings and pack are bounded (struct / tokeniser are outside the prover).", category='other'),
+              "strings and pack are bounded (struct / tokeniser are outside the prover); agreement of *every* creation route of every registered "
+              "dtype (length in the keyword name, struct codes, Dtype('nameL'), property, pack, format string) is a bounded native sweep.", category='other'),
     'C11': _p("Every decode-table entry (all codes of 7 formats) and every rounding-table entry (65536 binary16 values x overflow "
               "modes) is compared, exhaustively, with an exact-rational model written from the format definitions and the "
               "documented overflow rules; the real encoders/getters are run on every binary16 value under both option settings "
